@@ -70,6 +70,22 @@ theorem C11_F1a_node (A : Algebra) (env : Env) (hsym : EqSymm A) (hg : env.g.Nod
       (Spec.denote A env (.match_ false [⟨⟨some a, ls, []⟩, []⟩] :: tail)).map Spec.Result.rows :=
   f1a_node_refines A env hsym hg a ls tail hc hs
 
+/-- **C11 on F1a, single outgoing hop** — `MATCH (a:La)-[ev:T1|T2…]->(d:Ld)` as the first clause, followed by core
+    clauses without DISTINCT / SKIP / LIMIT (`bagClauses`), on graphs without parallel relationship copies
+    (`NoParallel`, the trigger of C11-parallel-rel-reuse): the compiled plan (anchor scan + IndexSeek, label filters,
+    MatchOut with destination labels and the hidden path column, WHERE equality conjuncts pushed down on all three
+    aliases) and the reference return the same bag of rows.  Side conditions: distinct variable names, none of them
+    (nor a later alias) the internal path name `pa0`; relationship types listed once. -/
+theorem C11_F1a_hop_out (A : Algebra) (env : Env) (hsym : EqSymm A) (hg : env.g.NodesDistinct)
+    (hnp : NoParallel env.g) (a d : String) (la dl rels : List String) (ev : Option String) (tail : Query)
+    (hrels : rels.Nodup) (had : a ≠ d) (hev : ∀ e, ev = some e → e ≠ a ∧ e ≠ d)
+    (hap : a ≠ pa0) (hdp : d ≠ pa0) (hep : ∀ e, ev = some e → e ≠ pa0) (hin : pa0 ∉ introduced tail)
+    (hc : bagClauses true tail = true)
+    (hs : Spec.WellScoped (.match_ false [hopPat a la ev rels d dl] :: tail)) :
+    Agrees (Exec.run A env (.match_ false [hopPat a la ev rels d dl] :: tail))
+      (Spec.denote A env (.match_ false [hopPat a la ev rels d dl] :: tail)) :=
+  f1a_hop_out_agrees A env hsym hg hnp a d la dl rels ev tail hrels had hev hap hdp hep hin hc hs
+
 /-- the reference's core clauses (no DISTINCT / SKIP / LIMIT: `bagClauses`) respect "same bag of rows once the hidden
     path column is erased" — the relation between the rows of a MATCH plan and the reference's rows; with
     `C11_core_induction` this reduces an F1a query to its MATCH step -/
@@ -329,6 +345,14 @@ def q1b : Query :=
    .return_ ⟨false, [⟨.plain (.var "n"), "n"⟩], [], none, none⟩]
 example : coreClauses true q1b.tail = true ∧ Spec.WellScoped q1b := by decide
 example : okRows (Exec.run small { g := g1 } q1b) = some [[("n", .node 1)]] := by decide
+
+/-- `MATCH (a:A)-[r:T]->(b) WHERE a.k = 1 RETURN b.k AS k` meets every hypothesis of `C11_F1a_hop_out` -/
+def q5tail : Query :=
+  [.where_ (.cmp .eq (.prop "a" "k") (.lit (.int 1))), .return_ ⟨false, [⟨.plain (.prop "b" "k"), "k"⟩], [], none, none⟩]
+example : bagClauses true q5tail = true ∧ pa0 ∉ introduced q5tail ∧ "a" ≠ pa0 ∧ "b" ≠ pa0 ∧ "r" ≠ pa0 ∧
+    Spec.WellScoped (.match_ false [hopPat "a" ["A"] (some "r") ["T"] "b" []] :: q5tail) := by decide
+example : okRows (Exec.run small { g := g1 } (.match_ false [hopPat "a" ["A"] (some "r") ["T"] "b" []] :: q5tail)) =
+    some [[("k", .int 2)]] := by decide
 
 /-- `UNWIND [3,1,1] AS x WITH DISTINCT x AS y SKIP 1 WHERE y < 5 RETURN y AS z LIMIT 3` is a core query -/
 def q3 : Query :=
